@@ -133,8 +133,34 @@ func mkPoints(from, to int) []imodels.Point {
 	return pts
 }
 
+// parseTopology reads `prefix;branch;branch…` (a fork: every branch hangs below the last node of the prefix,
+// declared in this order) or a plain chain. It returns all nodes in declaration order (= node index - 1) and,
+// per node, whether it is the first node of a branch.
+func parseTopology(chainS string) (all []nodeSpec, branchStart []bool, fork bool, err error) {
+	parts := strings.Split(chainS, ";")
+	for pi, part := range parts {
+		var ns []nodeSpec
+		if pi == 0 {
+			ns, err = parseChain(part)
+		} else {
+			ns, err = parseChain("from," + part)
+			if err == nil {
+				ns = ns[1:]
+			}
+		}
+		if err != nil || len(ns) == 0 {
+			return nil, nil, false, fmt.Errorf("bad topology %q: %v", chainS, err)
+		}
+		for j, x := range ns {
+			all = append(all, x)
+			branchStart = append(branchStart, pi > 0 && j == 0)
+		}
+	}
+	return all, branchStart, len(parts) > 1, nil
+}
+
 func runCase(chainS, stopKind, class string, n int, stopBound time.Duration) (res result, err error) {
-	chain, err := parseChain(chainS)
+	chain, branchStart, isFork, err := parseTopology(chainS)
 	if err != nil {
 		return res, err
 	}
@@ -146,9 +172,16 @@ func runCase(chainS, stopKind, class string, n int, stopBound time.Duration) (re
 	fi := &fakeInflux{clients: map[string]*sinkTarget{}}
 	var outs []outInfo
 	var sb strings.Builder
-	sb.WriteString("stream\n")
+	if isFork {
+		sb.WriteString("var p = stream\n")
+	} else {
+		sb.WriteString("stream\n")
+	}
 	for j, ns := range chain {
 		idx := j + 1
+		if branchStart[j] {
+			sb.WriteString("p\n")
+		}
 		switch ns.kind {
 		case "from":
 			sb.WriteString("  |from().measurement('m')\n")
@@ -321,7 +354,7 @@ func runCase(chainS, stopKind, class string, n int, stopBound time.Duration) (re
 			} else {
 				quiet, last = 0, v
 			}
-			if (quiet >= 3 && edgesEmpty()) || quiet >= 60 {
+			if (quiet >= 3 && !isFork && edgesEmpty()) || quiet >= 60 {
 				break
 			}
 			time.Sleep(4 * time.Millisecond)
